@@ -86,24 +86,6 @@ pub fn lifecycle(op: u8, c: usize, r: usize) {
         cells_live_distinct(&u);
         drop(u);
         all_dropped();
-    } else if op == 6 || op == 7 {
-        let (s, e) = window(c, r);
-        let z = window_size(s, e);
-        let u: TooDee<Tok> = if op == 6 { TooDee::from(t.view(s, e)) } else { TooDee::from(t.view_mut(s, e)) };
-        assert!(u.size() == z, "ORACLE: From<view> size");
-        inv(&u);
-        cells_live_distinct(&u);
-        if z.0 > 0 {
-            let x = nd::below(z.0);
-            let y = nd::below(z.1);
-            assert!(u[(x, y)].val == t[(s.0 + x, s.1 + y)].val, "ORACLE: From<view> cell value");
-            assert!(u[(x, y)].id as usize >= n, "ORACLE: From<view> shares an element with the original");
-        }
-        all_live_below(n);
-        drop(t);
-        cells_live_distinct(&u);
-        drop(u);
-        all_dropped();
     } else if op == 8 {
         if n > 0 {
             let x = nd::below(c);
@@ -148,6 +130,30 @@ pub fn lifecycle(op: u8, c: usize, r: usize) {
     end_reached!();
 }
 
+/// TooDee::from(view) / from(view_mut) of a concrete window: clones, independent of the original.
+pub fn from_view_tok(c: usize, r: usize, sc: usize, sr: usize, ec: usize, er: usize, mutable: bool) {
+    let mut t = owned_tok(c, r, false);
+    let n = c * r;
+    let (s, e) = ((sc, sr), (ec, er));
+    let z = window_size(s, e);
+    let u: TooDee<Tok> = if mutable { TooDee::from(t.view_mut(s, e)) } else { TooDee::from(t.view(s, e)) };
+    assert!(u.size() == z, "ORACLE: From<view> size");
+    inv(&u);
+    cells_live_distinct(&u);
+    if z.0 > 0 {
+        let x = nd::below(z.0);
+        let y = nd::below(z.1);
+        assert!(u[(x, y)].val == t[(s.0 + x, s.1 + y)].val, "ORACLE: From<view> cell value");
+        assert!(u[(x, y)].id as usize >= n, "ORACLE: From<view> shares an element with the original");
+    }
+    all_live_below(n);
+    drop(t);
+    cells_live_distinct(&u);
+    drop(u);
+    all_dropped();
+    end_reached!();
+}
+
 /// Constructors that create elements: new (Default) and init (Clone).
 pub fn construct(op: u8, c: usize, r: usize) {
     reset();
@@ -184,7 +190,7 @@ pub fn permute(op: u8, c: usize, r: usize) {
     let keys = nd::bytes::<16>();
     let mut i = 0;
     while i < n {
-        nd::assume(keys[i] < 3);
+        nd::assume(keys[i] < 2);
         t.data_mut()[i].val = keys[i];
         i += 1;
     }
@@ -194,7 +200,7 @@ pub fn permute(op: u8, c: usize, r: usize) {
         2 => t.swap_cols(nd::below(c), nd::below(c)),
         3 => t.sort_by_row(nd::below(r), |a, b| a.val.cmp(&b.val)),
         4 => t.sort_by_col(nd::below(c), |a, b| a.val.cmp(&b.val)),
-        5 => t.translate_with_wrap((nd::upto(c), nd::upto(r))),
+        5 => t.translate_with_wrap((nd::upto(c), 1)),
         6 => t.flip_rows(),
         7 => t.flip_cols(),
         8 => t.sort_unstable_by_row(nd::below(r), |a, b| a.val.cmp(&b.val)),
